@@ -148,6 +148,9 @@ func genH264AUx(t *core.Tape, mtu int, allowParams bool, state *int, supersede b
 			if mtu >= 600 && t.Chance(1, 6) {
 				return 200 + t.Intn(500) // parameter sets with VUI / scaling lists are several hundred bytes long
 			}
+			if mtu >= 1000 && t.Chance(1, 300) {
+				return 65530 + t.Intn(3000) // the statement bounds no unit's size: a parameter set beyond 16-bit lengths
+			}
 			return 2 + t.Intn(base)
 		}
 		if *state == 1 {
